@@ -95,6 +95,8 @@ impl Region {
             assert!(end_offset <= region_len);
 
             let abs_offset = region_start + offset;
+            #[cfg(anydb_verif)]
+            crate::verif_tap::emit(crate::verif_tap::Event::MmapWrite { file: 0, offset: abs_offset, len: value_len });
             let slice = unsafe { std::slice::from_raw_parts_mut(ptr.add(abs_offset), value_len) };
             write_fn(&value, slice);
             dirty_start = dirty_start.min(offset);
@@ -166,6 +168,8 @@ impl Region {
         if new_len <= reserved {
             db.write(write_start, data);
             self.mark_dirty_abs(start, write_start, data_len);
+            #[cfg(anydb_verif)]
+            crate::verif_tap::pause("write_with:fits:after-data");
 
             if new_len != len {
                 let regions = db.regions();
@@ -290,8 +294,12 @@ impl Region {
             new_start
         };
 
+        #[cfg(anydb_verif)]
+        crate::verif_tap::pause("write_with:relocate:before-copy");
         db.copy(start, new_start, copy_len)?;
         db.write(new_start + write_offset, data);
+        #[cfg(anydb_verif)]
+        crate::verif_tap::pause("write_with:relocate:after-copy");
 
         trace!(
             "{}: '{}' write_with re-acquiring layout_mut (after relocation)",
@@ -364,6 +372,8 @@ impl Region {
         let data_flushed = if let Some((min, max)) = dirty_bounds {
             let region_start = self.meta().start();
             let mmap = db.mmap();
+            #[cfg(anydb_verif)]
+            crate::verif_tap::emit(crate::verif_tap::Event::FlushAsync { file: 0, offset: region_start + min, len: max - min });
             if let Err(e) = mmap.flush_async_range(region_start + min, max - min) {
                 drop(mmap);
                 self.restore_dirty_bounds(min, max);
@@ -381,6 +391,8 @@ impl Region {
         // but before data sync, metadata could reference unwritten data.
         if data_flushed || meta_flushed {
             db.file().sync_data()?;
+            #[cfg(anydb_verif)]
+            crate::verif_tap::emit(crate::verif_tap::Event::SyncData { file: 0 });
             regions.sync_data()?;
         }
 
@@ -404,11 +416,15 @@ impl Region {
 
     #[inline(always)]
     pub fn meta(&self) -> RwLockReadGuard<'_, RegionMetadata> {
+        #[cfg(anydb_verif)]
+        crate::verif_tap::lock("meta", self.0.index + 1, false);
         self.0.meta.read()
     }
 
     #[inline(always)]
     pub(crate) fn meta_mut(&self) -> RwLockWriteGuard<'_, RegionMetadata> {
+        #[cfg(anydb_verif)]
+        crate::verif_tap::lock("meta", self.0.index + 1, true);
         self.0.meta.write()
     }
 
@@ -420,6 +436,8 @@ impl Region {
     #[inline]
     pub fn mark_dirty(&self, offset: usize, len: usize) {
         let end = offset + len;
+        #[cfg(anydb_verif)]
+        crate::verif_tap::lock("dirty_bounds", self.0.index + 1, true);
         let mut bounds = self.0.dirty_bounds.lock();
         bounds.0 = bounds.0.min(offset);
         bounds.1 = bounds.1.max(end);
@@ -433,6 +451,8 @@ impl Region {
 
     #[inline]
     pub(crate) fn take_dirty_bounds(&self) -> Option<(usize, usize)> {
+        #[cfg(anydb_verif)]
+        crate::verif_tap::lock("dirty_bounds", self.0.index + 1, true);
         let mut bounds = self.0.dirty_bounds.lock();
         if bounds.0 < bounds.1 {
             Some(mem::replace(&mut *bounds, (usize::MAX, 0)))
@@ -454,5 +474,19 @@ impl Region {
     /// Verification hook: current dirty bounds (min, max) relative to the region start.
     pub fn verif_dirty_bounds(&self) -> (usize, usize) {
         *self.0.dirty_bounds.lock()
+    }
+
+    /// Verification hook: state of this region's locks (meta, dirty_bounds):
+    /// 0 = free, 1 = shared, 2 = exclusive.
+    pub fn verif_lock_state(&self) -> [u8; 2] {
+        let m = if self.0.meta.is_locked_exclusive() {
+            2
+        } else if self.0.meta.is_locked() {
+            1
+        } else {
+            0
+        };
+        let d = if self.0.dirty_bounds.is_locked() { 2 } else { 0 };
+        [m, d]
     }
 }
